@@ -8,13 +8,19 @@ import (
 
 // C08 facts: the default event types of MonitorConfig.WithEventTypes(nil) (monitor_config.go),
 // resolved to the string values of the constants in kube_events_manager/types/types.go.
-// Skeleton: applyFilter (filter.go) — the order filter → marshal → store → checksum.
+// Skeletons: applyFilter (filter.go) — the order filter → marshal → store → checksum;
+// getCachedObjects (resource_informer.go) — no access through the copied entries.
 func init() {
 	factFns = append(factFns, factsC08)
 	skeletonTargets = append(skeletonTargets,
 		skelTarget{Name: "C08.applyFilter", File: "pkg/kube_events_manager/filter.go", Recv: "", Func: "applyFilter",
 			Fields: []string{"FilterResult", "Checksum", "JqFilter", "ResourceId"},
 			Calls:  []string{"ApplyFilter", "ApplyFilterValue", "Marshal", "CalculateChecksum", "filterFn", "resourceId", "UnstructuredContent"}},
+		// getCachedObjects (what Monitor.Snapshot collects): copies the entry structs and never goes
+		// through their fields — in particular not through `Object`, which still points at the object
+		// in the shared informer's store (model: `snapshotHeap id`).
+		skelTarget{Name: "C08.getCachedObjects", File: "pkg/kube_events_manager/resource_informer.go", Recv: "resourceInformer", Func: "getCachedObjects",
+			Fields: []string{"cachedObjects", "Object", "FilterResult", "Metadata"}},
 	)
 }
 
